@@ -420,6 +420,8 @@ class MinMaxAggregator:
                 continue
             blit_vars = global_vars_inside_body([blit])  # not the local variables of conditions and aggregates
             if len(blit_vars.intersection(inside_variables)) != 0:
+                if {var.name for var in blit_vars}.intersection(AggAnalytics(agg.atom).equal_variable_bound):
+                    return [rule]  # the literal joins the group with the result, it can not be part of the chain
                 rest_vars.update(blit_vars)
                 lits_with_vars.append(blit)
             else:
